@@ -1,7 +1,7 @@
 """C13 configuration for ./check (see checks/propcfg.py for the keys)."""
 CFG = {
-    "modules": ["VaxisModel.Props.C13", "VaxisModel.Props.C13Body", "VaxisModel.Props.C13Ext", "VaxisModel.Props.C13Shift"],
-    "extractors": ["C09", "C13"],
+    "modules": ["VaxisModel.Props.C13", "VaxisModel.Props.C13Body", "VaxisModel.Props.C13Ext", "VaxisModel.Props.C13Shift", "VaxisModel.Props.C13Child"],
+    "extractors": ["C09", "C13", "C05"],
     "drivers": ["C13"],
     "trivial_prefix": ("-|-|", "-|-"),
     "rule": "key: every Key* constant and alias x 8 xterm modifier sets (+ kitty-only modifier sets), every printable ASCII key x 8 "
